@@ -106,7 +106,10 @@ class Extracted:
         self.kind = kind
         self.lineno = node.lineno
         self.end_lineno = node.end_lineno
-        seg = ast.get_source_segment(mod.source, getattr(node, "source_node", node)) or ""
+        if getattr(node, "after_nodes", None):
+            seg = "\n".join(ast.get_source_segment(mod.source, n) or "" for n in node.after_nodes)
+        else:
+            seg = ast.get_source_segment(mod.source, getattr(node, "source_node", None) or node) or ""
         self.source = seg
         self.sha256 = hashlib.sha256(seg.encode()).hexdigest()
         self.decorators = [ast.unparse(d) for d in getattr(node, "decorator_list", [])]
@@ -227,6 +230,34 @@ def extract(target):
             fn.loop_target = loop.target if isinstance(loop, ast.For) else None
             fn.loop_iter = loop.iter if isinstance(loop, ast.For) else None
             fn.source_node = loop
+            node = fn
+            continue
+        if nm.startswith("after#"):
+            # the statements that follow the k-th loop in its own block, up to the end of that block, as a parameterless
+            # function whose free variables are supplied by the contract's closure (what runs once the loop is done)
+            k = int(nm[6:])
+            own = [n for n in ast.walk(node) if isinstance(n, (ast.For, ast.While))]
+            own.sort(key=lambda n: (n.lineno, n.col_offset))
+            if not 1 <= k <= len(own):
+                raise ExtractError("%s: loop %d not found" % (target, k))
+            loop = own[k - 1]
+            rest = None
+            for parent in ast.walk(node):
+                for field in ("body", "orelse", "finalbody"):
+                    lst = getattr(parent, field, None)
+                    if isinstance(lst, list) and any(x is loop for x in lst):
+                        rest = lst[[i for i, x in enumerate(lst) if x is loop][0] + 1:]
+            if not rest:
+                raise ExtractError("%s: nothing follows loop %d" % (target, k))
+            fn = ast.FunctionDef(name="after_loop%d" % k, args=ast.arguments(posonlyargs=[], args=[], vararg=None, kwonlyargs=[],
+                                                                               kw_defaults=[], kwarg=None, defaults=[]),
+                                 body=list(rest), decorator_list=[], returns=None, type_comment=None)
+            ast.fix_missing_locations(fn)
+            ast.copy_location(fn, rest[0])
+            fn.end_lineno = rest[-1].end_lineno
+            fn.end_col_offset = rest[-1].end_col_offset
+            fn.source_node = None
+            fn.after_nodes = rest
             node = fn
             continue
         if nm.startswith("lambda"):
